@@ -9,7 +9,11 @@ import json, os, re, shutil, subprocess, sys, time, hashlib, tempfile
 
 VERIF = os.path.dirname(os.path.dirname(os.path.abspath(__file__)))
 REPO = os.environ.get("VERIF_REPO", "/repo")
-WORK = os.path.join(VERIF, ".work")
+# VERIF_REPO=<path> runs the checks against another checkout (a scratch worktree holding a seeded change) without
+# touching /repo: separate work directory, separate harness copy, evidence written under that work directory.
+ALT = REPO != "/repo"
+WORK = os.path.join(VERIF, ".work") if not ALT else os.path.join(VERIF, ".work", "alt-" + hashlib.md5(REPO.encode()).hexdigest()[:8])
+EVIDENCE_DIR = os.path.join(VERIF, "evidence") if not ALT else os.path.join(WORK, "evidence")
 TLA = os.path.join(VERIF, "tla")
 JAR = "/opt/veriftools/tla/tla2tools.jar"
 CM = "/opt/veriftools/tla/CommunityModules-deps.jar"
@@ -69,7 +73,15 @@ def build_harness(race=False):
         shutil.copyfile(os.path.join(REPO, "go.sum"), os.path.join(VERIF, "harness", "go.sum.repo"))
     except OSError:
         pass
-    p = subprocess.run(cmd, cwd=os.path.join(VERIF, "harness"), env=env, capture_output=True, text=True)
+    hdir = os.path.join(VERIF, "harness")
+    if ALT:
+        hdir = os.path.join(WORK, "harness")
+        shutil.rmtree(hdir, ignore_errors=True)
+        shutil.copytree(os.path.join(VERIF, "harness"), hdir)
+        gm = open(os.path.join(hdir, "go.mod")).read().replace("=> /repo", "=> " + REPO)
+        open(os.path.join(hdir, "go.mod"), "w").write(gm)
+        shutil.copyfile(os.path.join(REPO, "go.sum"), os.path.join(hdir, "go.sum"))
+    p = subprocess.run(cmd, cwd=hdir, env=env, capture_output=True, text=True)
     if p.returncode != 0:
         raise Infra("harness build failed (does /repo still compile with -tags verif?):\n" + p.stdout + p.stderr)
     _built[key] = outp
@@ -119,8 +131,17 @@ def vh_to_file(args, outpath, stdin_path=None, race=False, timeout=3600, env=Non
 
 # ----------------------------------------------------------------------------- TLC
 
+import threading
+_ovr_lock = threading.Lock()
+
+
 def build_overrides():
     """Compile the TLC module overrides (JDK crypto etc.) if sources are newer than classes."""
+    with _ovr_lock:
+        return _build_overrides()
+
+
+def _build_overrides():
     src = os.path.join(TLA, "overrides")
     if not os.path.isdir(src):
         return None
@@ -299,8 +320,13 @@ def is_known(pid, key):
     return None
 
 
+CURRENT_REPORT = None
+
+
 class Report:
     def __init__(self, pid, tier, level="model_checking"):
+        global CURRENT_REPORT
+        CURRENT_REPORT = self
         self.pid, self.tier, self.level = pid, tier, level
         self.t0 = time.time()
         self.cov = {"states": 0, "transitions": 0, "traces_validated_against_impl": 0, "evaluations": 0,
@@ -337,8 +363,8 @@ class Report:
               "violations": len(self.violations)}
         if self.known:
             ev["known_findings_hit"] = [k for k, _ in self.known]
-        os.makedirs(os.path.join(VERIF, "evidence"), exist_ok=True)
-        with open(os.path.join(VERIF, "evidence", self.pid + ".json"), "w") as f:
+        os.makedirs(EVIDENCE_DIR, exist_ok=True)
+        with open(os.path.join(EVIDENCE_DIR, self.pid + ".json"), "w") as f:
             json.dump(ev, f, indent=1, sort_keys=True)
         for key, what in self.known:
             log("KNOWN-FINDING: property=%s %s" % (self.pid, what))
